@@ -17,6 +17,7 @@ import (
 // one – two events in one line that is not parseable JSON.
 func c07NewFileAfterSplit(c *Ctx) {
 	const rule = "line-boundary-new-file"
+	c.Explanation += " After a prefix was written without its final newline no further write is reachable except through a successful rotation."
 	p := c.P
 	w := p.Method(fileRel, "rotateFile", "Write")
 	rot := p.Method(fileRel, "rotateFile", "rotate")
